@@ -19,7 +19,7 @@ import (
 
 var objNames = []string{"/8:6f/8:61", "/8:6f/8:62", "/8:6f/8:61/8:78", "/8:6f", "/8:6f/8:61/8:79/8:7a", "/8:70"}
 
-var boundarySizes = []int{1, 2, 7999, 8000, 8001, 15999, 16000, 16001, 23999, 24000, 24001, 100, 4000, 12345, 31999, 32001}
+var boundarySizes = []int{1, 2, 7999, 8000, 8001, 15999, 16000, 16001, 23999, 24000, 24001, 100, 4000, 12345, 31999, 32001, 252, 253, 254, 8253, 16253}
 var bigSizes = []int{79999, 80000, 80001, 87999, 88000, 88001, 96001, 160001}
 
 var versionPatterns = [][]string{
